@@ -175,6 +175,7 @@ class ContractDB:
         self.ext_module: str | None = None
         self.pure_functions: dict[str, ast.expr] = {}  # repo/external function -> result type; modelled as an uninterpreted function
         self.harnesses: dict[str, Harness] = {}
+        self.load_classes: list[str] = []  # repository classes a sidecar names that the verified module does not import by name
         self.stub_classes: dict[str, dict] = {}  # shapes of objects from outside the repository (process handles ...)
         self.owned_fields: set[str] = set()  # container-valued fields with an ownership ghost (container -> its object)
         self.owning: set[str] = set()  # dict-valued fields with an ownership ghost (value object -> its key)
@@ -236,6 +237,8 @@ class ContractDB:
                         self.owning.add(a.value)
                 elif n == "assumption":
                     self.assumptions.append(c.args[0].value)
+                elif n == "load_class":
+                    self.load_classes.append(c.args[0].value)
                 elif n == "external_class":
                     self.externals.setdefault("__classes__", set()).add(c.args[0].value)
             elif isinstance(node, ast.FunctionDef):
